@@ -27,8 +27,9 @@ RULE = ('buffers w x h (w 1..200 biased to 1,2,3,4,5,63,64,65,66,127,128,129,130
         'run-structured segments (identical cells, same character, same attribute, unrelated; lengths biased to 1..5 and 60..70) over '
         'small alphabets (3 chars x 3 attrs x 2 pages; attributes that differ for Rust equality but encode to the same byte; font pages {0,1}, {0,5}, {3,7}, {4}) '
         'and over the full byte range; a few characters above 255 (error path). A case is non-trivial when the buffer has at least 2 cells; '
-        'distinct = distinct (options, cells). Thorough adds every row of width 1..4 over the 18-symbol alphabet and width 1..8 over 2 chars x 2 attrs '
-        'and width 1..10 over 1 char x 2 pages x 2 attrs.')
+        'distinct = distinct (options, cells). Exhaustive sweeps (rows packed 1500 to a buffer, the compressor restarts on every row): search quick '
+        'width <= 3 over the 18 symbols and <= 6 over 2 attrs x 2 pages; search thorough width <= 5 over the 18 symbols, <= 8 over 2 chars x 2 attrs, '
+        '<= 10 over 2 attrs x 2 pages; correspondence thorough width <= 4 over the 18 symbols.')
 
 INVISIBLE = (32, 7, 0, 32768, 0)
 SPECIAL_W = [1, 2, 3, 4, 5, 6, 7, 63, 64, 65, 66, 127, 128, 129, 130, 200]
@@ -121,23 +122,20 @@ REGRESSION = [
 ]
 
 def exhaustive_buffers(alpha, wmax, two_fonts, chunk=1500):
-    """every row of width 1..wmax over alpha, packed as rows of buffers (the compressor restarts on every row);
-    a last sentinel row keeps both font pages in use in every buffer"""
-    out = []
+    """generator: every row of width 1..wmax over alpha, packed as rows of buffers (the compressor restarts on every
+    row); a last sentinel row keeps both font pages in use in every buffer"""
+    def mk(rows, w):
+        if two_fonts:
+            if w > 1: rows = rows + [[(90, 7, 0, 0, 1)] * (w - 1) + [(90, 7, 0, 0, 0)]]
+            else: rows = rows + [[(90, 7, 0, 0, 1)], [(90, 7, 0, 0, 0)]]
+        return {'ice': 2, 'lossless': 1, 'sauce': 0, 'w': w, 'h': len(rows), 'rows': rows}
     for w in range(1, wmax + 1):
         rows = []
         for t in itertools.product(alpha, repeat=w):
             rows.append(list(t))
             if len(rows) == chunk:
-                out.append(rows); rows = []
-        if rows: out.append(rows)
-    bufs = []
-    for rows in out:
-        w = len(rows[0])
-        if two_fonts:
-            rows = rows + [[(90, 7, 0, 0, 1)] * (w - 1) + [(90, 7, 0, 0, 0)]] if w > 1 else rows + [[(90, 7, 0, 0, 1)], [(90, 7, 0, 0, 0)]]
-        bufs.append({'ice': 2, 'lossless': 1, 'sauce': 0, 'w': w, 'h': len(rows), 'rows': rows})
-    return bufs
+                yield mk(rows, w); rows = []
+        if rows: yield mk(rows, w)
 
 # ---------------------------------------------------------------------------------------------------------------
 # implementation observation (harness kind `xb`)
@@ -323,14 +321,14 @@ def leaf_cases():
 
 def correspondence(ctx):
     bufs = [dict(b, lossless=1, sauce=0) for b in REGRESSION]
-    target_rows = ctx.n(500, 5000)
+    target_rows = ctx.n(1500, 6000)
     rows = 0
     while rows < target_rows:
         b = gen_buffer(ctx.rng, max_cells=ctx.n(1500, 3000))
         bufs.append(b); rows += b['h']
     exhaustive_rows = 0
     if ctx.thorough or ctx.escalated:
-        ex = exhaustive_buffers(ALPHA18, 4, True)
+        ex = list(exhaustive_buffers(ALPHA18, 4, True))
         exhaustive_rows = sum(b['h'] for b in ex)
         bufs += ex
     lc, le = leaf_cases()
@@ -361,41 +359,49 @@ def correspondence(ctx):
             'exhaustive': False}
 
 def search(ctx, broken):
-    bufs = []
+    first = []
     # inputs on which model and implementation disagreed come first
     for bk in broken:
         d = bk.get('detail') or {}
         if isinstance(d, dict) and str(d.get('case', '')).startswith('xb '):
-            try: bufs.append(parse_case(d['case']))
+            try: first.append(parse_case(d['case']))
             except Exception: pass
-    bufs += REGRESSION
-    target_rows = ctx.n(5000, 100000)
-    rows = 0
-    while rows < target_rows:
-        lossless = 1 if ctx.rng.random() < 0.6 else 0
-        b = gen_buffer(ctx.rng, max_cells=ctx.n(2500, 6000), allow_big_char=bool(lossless), lossless=lossless)
-        if ctx.rng.random() < 0.15: b['sauce'] = 1
-        bufs.append(b); rows += b['h']
-    ex_rows = 0
+    first += REGRESSION
+    target_rows = ctx.n(15000, 100000)
+    def random_buffers():
+        rows = 0
+        while rows < target_rows:
+            lossless = 1 if ctx.rng.random() < 0.6 else 0
+            b = gen_buffer(ctx.rng, max_cells=ctx.n(2500, 6000), allow_big_char=bool(lossless), lossless=lossless)
+            if ctx.rng.random() < 0.15: b['sauce'] = 1
+            rows += b['h']
+            yield b
     if ctx.thorough or ctx.escalated:
-        ex = exhaustive_buffers(ALPHA18, 4, True) + exhaustive_buffers(ALPHA4, 8, False) + exhaustive_buffers(ALPHA4P, 10, True)
-        ex_rows = sum(b['h'] for b in ex)
-        bufs += ex
+        sweeps = [exhaustive_buffers(ALPHA18, 5 if ctx.thorough else 4, True), exhaustive_buffers(ALPHA4, 8, False),
+                  exhaustive_buffers(ALPHA4P, 10, True)]
+        sweep_text = 'all rows of width <= %d over 18 symbols, <= 8 over 2 chars x 2 attrs, <= 10 over 2 attrs x 2 pages' % (5 if ctx.thorough else 4)
     else:
-        ex = exhaustive_buffers(ALPHA18, 3, True) + exhaustive_buffers(ALPHA4P, 6, True)
-        ex_rows = sum(b['h'] for b in ex)
-        bufs += ex
-    cases = [case_str(b) for b in bufs]
-    impl = ctx.impl(cases, per_case_timeout=120)
-    failures = []
-    for b, r in zip(bufs, impl):
-        f = oracle(b, r)
-        if f: failures.append(f)
+        sweeps = [exhaustive_buffers(ALPHA18, 3, True), exhaustive_buffers(ALPHA4P, 6, True)]
+        sweep_text = 'all rows of width <= 3 over 18 symbols, <= 6 over 2 attrs x 2 pages'
+    stream = itertools.chain(first, random_buffers(), *sweeps)
+    failures = []; ncases = 0; nrows = 0; ex_rows = 0; distinct = set(); sample = None
+    nfirst = len(first)
+    while True:
+        batch = list(itertools.islice(stream, 256))
+        if not batch: break
+        cases = [case_str(b) for b in batch]
+        impl = ctx.impl(cases, per_case_timeout=120)
+        for b, c, r in zip(batch, cases, impl):
+            ncases += 1; nrows += b['h']
+            if b['w'] * b['h'] >= 2: distinct.add(hash(c))
+            if sample is None and ncases > nfirst: sample = c[:300]
+            f = oracle(b, r)
+            if f and len(failures) < 2000: failures.append(f)
+        if len(failures) >= 2000: break
     failures.sort(key=lambda f: len(str(f['input'])))
     for f in failures: f['input'] = f['input'] if len(f['input']) < 20000 else f['input'][:20000]
-    return {'cases': len(cases), 'failures': failures, 'rows': sum(b['h'] for b in bufs), 'exhaustive_rows': ex_rows,
-            'distinct_nontrivial': len({c for c, b in zip(cases, bufs) if b['w'] * b['h'] >= 2}),
-            'samples': [cases[len(REGRESSION)][:300]]}
+    return {'cases': ncases, 'failures': failures, 'rows': nrows, 'exhaustive_sweeps': sweep_text,
+            'distinct_nontrivial': len(distinct), 'samples': [sample]}
 
 def replay(ctx, body):
     from vlib import driver
